@@ -48,6 +48,10 @@ int save_context (error_context_t * econ) {
       return 0;
     }
   econ->save_command_giver = command_giver;
+  econ->save_restrict_destruct = get_destruct_object_limits ();
+  econ->save_num_objects_this_thread = get_load_object_limits ();
+  econ->save_illegal_sentence_action = illegal_sentence_action;
+  econ->save_last_verb = last_verb;
   econ->save_sp = sp;           /* stack pointer */
   econ->save_csp = csp;         /* control stack pointer */
   econ->save_context = current_error_context;
@@ -102,6 +106,10 @@ void pop_context (error_context_t * econ) {
 void restore_context (error_context_t * econ) {
 
   command_giver = econ->save_command_giver;
+  set_destruct_object_limits (econ->save_restrict_destruct);
+  set_load_object_limits (econ->save_num_objects_this_thread);
+  illegal_sentence_action = econ->save_illegal_sentence_action;
+  last_verb = econ->save_last_verb;
   DEBUG_CHECK (csp < econ->save_csp, "csp is below econ->csp before unwinding.\n");
   if (csp > econ->save_csp)
     {
